@@ -1,27 +1,32 @@
 #!/bin/bash
-# seed_results.sh: run every seeded change (and every mutant) against its check (quick tier) and write seeded/RESULTS.md
+# seed_results.sh [parallel]: run every seeded change and every mutant against its check (quick tier) on scratch copies
+# of /repo (bin/try_patch.sh) and write seeded/RESULTS.md
 cd "$(dirname "$0")/.."
 export GOFLAGS=-mod=mod GOPROXY=off GOSUMDB=off GOTOOLCHAIN=local
-out=seeded/RESULTS.md
+P="${1:-3}"
+W=$(mktemp -d /tmp/seedres-XXXX)
+ids=$(python3 -c "import json;print(' '.join(c['property_id'] for c in json.load(open('MANIFEST.json'))['checks']))")
+for id in $ids; do
+  for f in seeded/$id/patch.diff mutants/$id/*.diff; do [ -f "$f" ] && echo "$id $f"; done
+done > $W/list
+one() {
+  id=$1; f=$2; W=$3
+  r=$(bin/try_patch.sh /verif/$f $id quick 2>&1)
+  rc=$(echo "$r" | grep -o "exit=[0-9]*" | tail -1)
+  n=$(echo "$r" | grep -o "([0-9]* violation lines)" | tail -1)
+  key=$(echo "$r" | grep "^VIOLATION" | head -1 | grep -o 'key="[^"]*"' | head -1)
+  echo "| $id | $f | $rc | $n | $key |" > $W/$(echo "$id-$f" | tr '/' '_').row
+}
+export -f one
+cat $W/list | xargs -P $P -L 1 bash -c 'one $0 $1 '"$W"
 {
 echo "# Seeded changes and mutants vs. checks (quick tier)"
 echo
-echo "Produced by bin/seed_results.sh against /repo HEAD $(git -C /repo log --format=%h -1): each change is applied to /repo with git apply, the check is run from a copy of /verif, the change is reverted."
+echo "Produced by bin/seed_results.sh against /repo HEAD $(git -C /repo log --format=%h -1): each change is applied to a scratch copy of /repo, the check is built from a scratch copy of /verif against it. exit=1 with a VIOLATION line = caught."
 echo
 echo "| check | change | exit | violation lines | first violation key |"
 echo "|---|---|---|---|---|"
-} > $out
-for d in seeded/C?? ; do
-  id=$(basename $d)
-  grep -q "\"$id\"" MANIFEST.json || continue
-  python3 -c "import json,sys;sys.exit(0 if any(c['property_id']=='$id' for c in json.load(open('MANIFEST.json'))['checks']) else 1)" || continue
-  for f in $d/patch.diff mutants/$id/*.diff; do
-    [ -f "$f" ] || continue
-    r=$(bin/try_patch.sh /verif/$f $id quick 2>&1)
-    rc=$(echo "$r" | grep -o "exit=[0-9]*" | tail -1)
-    n=$(echo "$r" | grep -o "([0-9]* violation lines)" | tail -1)
-    key=$(echo "$r" | grep "^VIOLATION" | head -1 | grep -o 'key="[^"]*"' | head -1)
-    echo "| $id | $f | $rc | $n | $key |" >> $out
-  done
-done
-echo done >> /tmp/seed_results.done
+cat $W/*.row | sort
+} > seeded/RESULTS.md
+rm -rf $W
+echo done > /tmp/seed_results.done
